@@ -67,7 +67,8 @@ package argmapper
 //@ func Named
 //@   ensures result != nil
 //@   ensures imp(n != "", fncode(result) == litcode("argmapper.Named$1") && captured(result, "argmapper.Named$1", "n") == n && captured(result, "argmapper.Named$1", "v") == v)
-//@   assigns nothing
+//@   ensures imp(n == "", fncode(result) == litcode("argmapper.Typed$1") && len(captured(result, "argmapper.Typed$1", "vs")) == 1 && captured(result, "argmapper.Typed$1", "vs")[0] == v)
+//@   assigns []interface{}
 
 //@ func Named$1
 //@   requires wfB(a)
@@ -140,3 +141,45 @@ package argmapper
 //@   requires a != nil
 //@   ensures  result == nil && a.funcOnce
 //@   assigns  argBuilder.funcOnce
+
+// option constructors: which closure they return and what it captured
+//@ func Typed
+//@   ensures result != nil && fncode(result) == litcode("argmapper.Typed$1") && captured(result, "argmapper.Typed$1", "vs") == vs
+//@   assigns nothing
+
+//@ func TypedSubtype
+//@   ensures result != nil
+//@   ensures imp(st != "", fncode(result) == litcode("argmapper.TypedSubtype$1") && captured(result, "argmapper.TypedSubtype$1", "v") == v && captured(result, "argmapper.TypedSubtype$1", "st") == st)
+//@   ensures imp(st == "", fncode(result) == litcode("argmapper.Typed$1") && len(captured(result, "argmapper.Typed$1", "vs")) == 1 && captured(result, "argmapper.Typed$1", "vs")[0] == v)
+//@   assigns []interface{}
+
+//@ func NamedSubtype
+//@   ensures result != nil
+//@   ensures imp(n != "" && st != "", fncode(result) == litcode("argmapper.NamedSubtype$1") && captured(result, "argmapper.NamedSubtype$1", "n") == n && captured(result, "argmapper.NamedSubtype$1", "v") == v && captured(result, "argmapper.NamedSubtype$1", "st") == st)
+//@   ensures imp(n != "" && st == "", fncode(result) == litcode("argmapper.Named$1") && captured(result, "argmapper.Named$1", "n") == n && captured(result, "argmapper.Named$1", "v") == v)
+//@   assigns []interface{}
+
+//@ func FuncOnce
+//@   ensures result != nil && fncode(result) == litcode("argmapper.FuncOnce$1")
+//@   assigns nothing
+//@ func FuncName
+//@   ensures result != nil && fncode(result) == litcode("argmapper.FuncName$1") && captured(result, "argmapper.FuncName$1", "n") == n
+//@   assigns nothing
+//@ func Logger
+//@   ensures result != nil && fncode(result) == litcode("argmapper.Logger$1") && captured(result, "argmapper.Logger$1", "l") == l
+//@   assigns nothing
+//@ func FilterInput
+//@   ensures result != nil && fncode(result) == litcode("argmapper.FilterInput$1") && captured(result, "argmapper.FilterInput$1", "f") == f
+//@   assigns nothing
+//@ func FilterOutput
+//@   ensures result != nil && fncode(result) == litcode("argmapper.FilterOutput$1") && captured(result, "argmapper.FilterOutput$1", "f") == f
+//@   assigns nothing
+//@ func ConverterFunc
+//@   ensures result != nil && fncode(result) == litcode("argmapper.ConverterFunc$1") && captured(result, "argmapper.ConverterFunc$1", "fs") == fs
+//@   assigns nothing
+//@ func ConverterGen
+//@   ensures result != nil && fncode(result) == litcode("argmapper.ConverterGen$1") && captured(result, "argmapper.ConverterGen$1", "fs") == fs
+//@   assigns nothing
+//@ func Converter
+//@   ensures result != nil && fncode(result) == litcode("argmapper.Converter$1") && captured(result, "argmapper.Converter$1", "fs") == fs
+//@   assigns nothing
